@@ -5,8 +5,18 @@
 package templater
 
 // every entry of the result is a pattern (never nil: the fingerprint code dereferences each of them)
+// ... and each pattern is the rendered text of the pattern that was written, with its negation: the templater does not
+// decide what a path means (absolute or relative, with or without wildcards - that is the matcher's business), so a
+// sources or generates entry names the same files wherever its variables got their value from
+//@ ghost var globText string scratch
 //@ func ReplaceGlobs
 //@   sweep                                                          [C16]
+//@   site Replace#1 requires arg0 == g.Glob && arg1 == cache                                                          [C05,C04]
+//@   site Replace#1 ghost globText := result
+//@   site store:Glob.Glob#0 requires arg1 == globText                                                                 [C05,C04]
+//@   site store:Glob.Negate#0 requires arg1 == g.Negate                                                               [C05,C04]
+//@   nosite strings.*                                                                                                 [C05,C04]
+//@   nosite filepath.*                                                                                                [C05,C04]
 //@   nilable result
 //@   loop 1 invariant forall j {new[j]} :: 0 <= j && j < $i ==> new[j] != nil && allocated(new[j])                    [C16]
 //@   ensures forall j {result[j]} :: 0 <= j && j < len(result) ==> result[j] != nil                                    [C16]
